@@ -462,15 +462,17 @@ def run(ctx):
         if not (m[0] == "call" and short_callee(m[1]) == "map"):
             return None
         src = leaf_name(strip(m[2][0]))
-        r = closure_return(prog, sc, m[2][1], ("named", "nlps"))
+        r = guarded_quotient_return(prog, sc, m[2][1], ("named", "nlps"))
         return src, r
     pa = vent_parts(prog, groot, gv, "S")
     pb = vent_parts(prog, msc, mnode, "S")
     ctx.require(pa is not None and pb is not None, "ventilation rate expressions not of the form l_s.map(|n| 3.6 n / V).unwrap_or_default()")
     for label, (src, r), sc_ in (("EnergyProps", pa, root), ("Model", pb, msc)):
         key = "c11.vent|%s|formula" % label
-        if r is None or r[0] != "bin" or r[1] != "Div":
-            ctx.violation("c11.vent", key, "rate is %s, expected 3.6 n / V" % (show(r)[:80] if r else "?"), ep.loc())
+        if r is None:
+            raise AnalysisError("ventilation rate (%s): the closure applied to the flow rate has several results and is not `quotient when the volume is non-zero, else 0`: not a shape this rule reads" % label)
+        if r[0] != "bin" or r[1] != "Div":
+            ctx.violation("c11.vent", key, "rate is %s, expected 3.6 n / V" % show(r)[:80], ep.loc())
             continue
         lm = LeafMap({"nlps": "n"})
         compare(ctx, "c11.vent", key, strip(r[2]), "3.6 * n", lm, None, (ep if label == "EnergyProps" else mv).loc(), "numerator of the ventilation rate")
@@ -593,6 +595,34 @@ def check_floor_either_side(ctx, prog, rule="c11.scope"):
         ctx.ok(rule, key, "floors are found from either side: own BOTTOM elements and TOP elements of the space below that name this space (12 cases)", f.loc(ups[0]["line"]))
 
 
+def guarded_quotient_return(prog, sc, clnode, elem):
+    """what a closure returns, read through a zero test on its divisor: `|n| if V > 0 { q(n) / V } else { 0.0 }` reads as q(n) / V.  A closure with a
+    single return expression is returned as it is; with several, exactly one may be a quotient, the others the constant 0, and the quotient's block must
+    be dominated by a comparison of its divisor with a constant"""
+    from ..cfgq import closure_id_of, closure_env
+    cid = closure_id_of(clnode)
+    if not cid or cid not in prog.fns:
+        return None
+    cfn = prog.fns[cid]
+    csc = Scope(prog, cfn, closure_env(strip(clnode)), elem, sc)
+    rns = returned_nodes(cfn.body)
+    if len(rns) == 1:
+        return strip(csc._rw(rns[0][1]))
+    nodes = [(b, strip(csc._rw(n_))) for b, n_ in rns]
+    divs = [(b, n_) for b, n_ in nodes if n_[0] == "bin" and n_[1] == "Div"]
+    zeros = [n_ for b, n_ in nodes if n_[0] == "k" and float(n_[1]) == 0.0]
+    if len(divs) != 1 or len(divs) + len(zeros) != len(nodes):
+        return None
+    b, q = divs[0]
+    den = origin_desc(strip(q[3]))
+    for (_, d, c, tk) in csc.conditions(b):
+        c = strip(c)
+        if c[0] == "bin" and c[1] in ("Gt", "Ge", "Lt", "Le", "Ne", "Eq") and \
+                ((origin_desc(strip(c[2])) == den and strip(c[3])[0] == "k") or (origin_desc(strip(c[3])) == den and strip(c[2])[0] == "k")):
+            return q
+    return None
+
+
 def check_model_ventilation(ctx, prog, rule):
     """Model::global_ventilation_rate = 3.6 * global_ventilation_l_s / (net volume of the habitable spaces inside the envelope): the building-wide rate the
     U-value of a partition with an unconditioned space uses when the space gives none (shared with C06)"""
@@ -605,10 +635,12 @@ def check_model_ventilation(ctx, prog, rule):
                 "Model::global_ventilation_rate is not of the form l_s.map(|n| 3.6 n / V).unwrap_or_default()")
     m = strip(n[2][0])
     src = leaf_name(strip(m[2][0]))
-    r = closure_return(prog, msc, m[2][1], ("named", "nlps"))
+    r = guarded_quotient_return(prog, msc, m[2][1], ("named", "nlps"))
     key = rule + "|Model::global_ventilation_rate"
-    if r is None or r[0] != "bin" or r[1] != "Div":
-        ctx.violation(rule, key + "|formula", "rate is %s, expected 3.6 n / V" % (show(r)[:80] if r else "?"), mv.loc())
+    if r is None:
+        raise AnalysisError("Model::global_ventilation_rate: the closure applied to the flow rate has several results and is not `quotient when the volume is non-zero, else 0`: not a shape this rule reads")
+    if r[0] != "bin" or r[1] != "Div":
+        ctx.violation(rule, key + "|formula", "rate is %s, expected 3.6 n / V" % show(r)[:80], mv.loc())
         return
     compare(ctx, rule, key + "|formula", strip(r[2]), "3.6 * n", LeafMap({"nlps": "n"}), None, mv.loc(), "numerator of the building-wide ventilation rate")
     if not (src or "").endswith("meta.global_ventilation_l_s"):
